@@ -97,7 +97,10 @@ func runQuery(kase queryCase, dir string) queryResult {
 				return nil, fmt.Errorf("replay of request %d which does not exist", l.Replay)
 			}
 			p = payloads[l.Replay-1]
-			if o := earlier[l.Replay-1]; o.Sender == l.Sender && o.Chan == l.Chan {
+			if l.EnvNonce {
+				p = p.withEnvelopeNonce(nonce[l.Sender])
+			}
+			if o := earlier[l.Replay-1]; o.Sender == l.Sender && o.Chan == l.Chan && !l.EnvNonce {
 				// the very transaction bytes that were in the block: anybody who saw the block has them
 				return &submission{Letter: l.Name, Sender: o.Sender, Chan: o.Chan, EthNonc: o.EthNonc, P: p, Raw: o.Raw}, nil
 			}
